@@ -36,6 +36,9 @@ def clear_caches():
     ANALYSED.clear()
     _PATH_CACHE.clear()
     _TYPED_CACHE.clear()
+    from . import walk as _w
+    _w._FIELD_CLASS_CACHE.clear()
+    _w._RET_CLASS_CACHE.clear()
 
 
 def normal(ps: List[State]) -> List[State]:
